@@ -81,7 +81,7 @@ def parse_twitter_url(url):
         user_screen_name = normalize_screen_name(path[0])
 
         if user_screen_name is None:
-            if path[0] == "i" and path[1] == "lists" and len(path) == 3:
+            if len(path) == 3 and path[0] == "i" and path[1] == "lists":
                 return TwitterList(id=path[2])
             return None
 
